@@ -405,4 +405,20 @@ theorem envRel_env0 (FN : List Nat) : EnvRel g FN [] env0 env0 := by
 
 end
 
+theorem propagate_ok_spec {g g' : TGrammar} (h : propagate g = (.ok, g')) :
+    g'.inputs = g.inputs ∧ checkModel g' = true := by
+  unfold propagate at h
+  simp only at h
+  split at h
+  · cases h
+  · split at h
+    · cases h
+    · split at h
+      · cases h
+      · rename_i hc
+        have := (Prod.mk.inj h).2
+        subst this
+        exact ⟨rfl, by simpa using hc⟩
+
+
 end TmVerif.Templates
